@@ -122,29 +122,39 @@ Arguments ASend {S}. Arguments ARecv {S}. Arguments AHalt {S}.
 
 Section Net.
 Variables (BT ST : Type) (bact : BT -> action BT) (sact : ST -> action ST).
+Variables (bthr : BT -> Z) (sthr : ST -> Z).     (* the threshold each end's net.Conn holds *)
 
+(* ghost components: every frame ever written per direction, and for every ReadPacket
+   (id, threshold of the writer, threshold the reader decoded with) *)
 Record sys := { x_b : BT; x_s : ST; x_c2s : list frame; x_s2c : list frame;
-                x_c2s_hist : list frame; x_s2c_hist : list frame }.
+                x_c2s_hist : list frame; x_s2c_hist : list frame;
+                x_bseen : list (Z * Z * Z); x_sseen : list (Z * Z * Z) }.
 
 Definition step_b (x : sys) : option sys :=
   match bact (x_b x) with
   | ASend f b' => Some {| x_b := b'; x_s := x_s x; x_c2s := x_c2s x ++ [f]; x_s2c := x_s2c x;
-                          x_c2s_hist := x_c2s_hist x ++ [f]; x_s2c_hist := x_s2c_hist x |}
+                          x_c2s_hist := x_c2s_hist x ++ [f]; x_s2c_hist := x_s2c_hist x;
+                          x_bseen := x_bseen x; x_sseen := x_sseen x |}
   | ARecv k => match x_s2c x with
                | [] => None
                | f :: q => Some {| x_b := k f; x_s := x_s x; x_c2s := x_c2s x; x_s2c := q;
-                                   x_c2s_hist := x_c2s_hist x; x_s2c_hist := x_s2c_hist x |}
+                                   x_c2s_hist := x_c2s_hist x; x_s2c_hist := x_s2c_hist x;
+                                   x_bseen := x_bseen x ++ [(f_id f, f_thr f, bthr (x_b x))];
+                                   x_sseen := x_sseen x |}
                end
   | AHalt => None
   end.
 Definition step_s (x : sys) : option sys :=
   match sact (x_s x) with
   | ASend f s' => Some {| x_b := x_b x; x_s := s'; x_c2s := x_c2s x; x_s2c := x_s2c x ++ [f];
-                          x_c2s_hist := x_c2s_hist x; x_s2c_hist := x_s2c_hist x ++ [f] |}
+                          x_c2s_hist := x_c2s_hist x; x_s2c_hist := x_s2c_hist x ++ [f];
+                          x_bseen := x_bseen x; x_sseen := x_sseen x |}
   | ARecv k => match x_c2s x with
                | [] => None
                | f :: q => Some {| x_b := x_b x; x_s := k f; x_c2s := q; x_s2c := x_s2c x;
-                                   x_c2s_hist := x_c2s_hist x; x_s2c_hist := x_s2c_hist x |}
+                                   x_c2s_hist := x_c2s_hist x; x_s2c_hist := x_s2c_hist x;
+                                   x_bseen := x_bseen x;
+                                   x_sseen := x_sseen x ++ [(f_id f, f_thr f, sthr (x_s x))] |}
                end
   | AHalt => None
   end.
@@ -169,6 +179,7 @@ Fixpoint run_greedy (fuel : nat) (x : sys) : sys :=
 End Net.
 Arguments x_b {BT ST}. Arguments x_s {BT ST}. Arguments x_c2s {BT ST}. Arguments x_s2c {BT ST}.
 Arguments x_c2s_hist {BT ST}. Arguments x_s2c_hist {BT ST}.
+Arguments x_bseen {BT ST}. Arguments x_sseen {BT ST}.
 
 (* ---------------------------------------------------------------- the bot *)
 (* where a join / ping stopped (LoginErr.Stage, ConfigErr.Stage; only the class is compared) *)
@@ -206,14 +217,10 @@ Record bcfg := {
   bc_registry_known : list N -> bool;             (* c.Registries.Registry(id) != nil *)
   bc_time : Z }.                                  (* startTime.Unix() of the ping *)
 
-Record bot := { b_ph : bphase; b_thr : Z; b_name : list N; b_uuid : list N;
-                b_seen : list (Z * Z * Z) }.     (* id, threshold of the sender, threshold used to decode *)
+Record bot := { b_ph : bphase; b_thr : Z; b_name : list N; b_uuid : list N }.
 
 Definition b_set (b : bot) (ph : bphase) : bot :=
-  {| b_ph := ph; b_thr := b_thr b; b_name := b_name b; b_uuid := b_uuid b; b_seen := b_seen b |}.
-Definition b_note (b : bot) (f : frame) : bot :=
-  {| b_ph := b_ph b; b_thr := b_thr b; b_name := b_name b; b_uuid := b_uuid b;
-     b_seen := b_seen b ++ [(f_id f, f_thr f, b_thr b)] |}.
+  {| b_ph := ph; b_thr := b_thr b; b_name := b_name b; b_uuid := b_uuid b |}.
 
 Definition bot_login (c : bcfg) (b : bot) (f : frame) : bot :=
   let id := f_id f in
@@ -226,14 +233,13 @@ Definition bot_login (c : bcfg) (b : bot) (f : frame) : bot :=
   else if id =? cbLoginGameProfile then
     match f_fields f with
     | FUUID u :: FString n :: _ =>
-        {| b_ph := BSend sbLoginAcknowledged [] BConfig; b_thr := b_thr b; b_name := n; b_uuid := u;
-           b_seen := b_seen b |}
+        {| b_ph := BSend sbLoginAcknowledged [] BConfig; b_thr := b_thr b; b_name := n; b_uuid := u |}
     | _ => b_set b (BFailed stLoginSuccess)
     end
   else if id =? cbLoginCompression then
     match f_fields f with
     | FVarInt t :: _ =>
-        {| b_ph := BLogin; b_thr := t; b_name := b_name b; b_uuid := b_uuid b; b_seen := b_seen b |}
+        {| b_ph := BLogin; b_thr := t; b_name := b_name b; b_uuid := b_uuid b |}
     | _ => b_set b (BFailed stCompression)
     end
   else if id =? cbLoginCustomQuery then
@@ -294,8 +300,7 @@ Definition bot_config (c : bcfg) (b : bot) (f : frame) : bot :=
 
 (* conn.ReadPacket under the local threshold, then the handler *)
 Definition b_recv (b : bot) (h : bot -> frame -> bot) (f : frame) : bot :=
-  let b1 := b_note b f in
-  if f_thr f =? b_thr b then h b1 f else b_set b1 (BFailed stDecode).
+  if f_thr f =? b_thr b then h b f else b_set b (BFailed stDecode).
 
 Definition bot_act (c : bcfg) (b : bot) : action bot :=
   match b_ph b with
@@ -323,11 +328,11 @@ Definition handshake_fields (c : bcfg) (intent : field) : list field :=
 Definition bot_join_init (c : bcfg) : bot :=
   {| b_ph := BSend idHandshake (handshake_fields c (FVarInt 2))
                (BSend sbLoginHello [FString (bc_name c); FUUID (bc_claim c)] BLogin);
-     b_thr := -1; b_name := []; b_uuid := bc_claim c; b_seen := [] |}.
+     b_thr := -1; b_name := []; b_uuid := bc_claim c |}.
 (* pingAndList *)
 Definition bot_ping_init (c : bcfg) : bot :=
   {| b_ph := BSend idHandshake (handshake_fields c (FByte 1)) (BSend sbStatusRequest [] BStatusList);
-     b_thr := -1; b_name := []; b_uuid := bc_claim c; b_seen := [] |}.
+     b_thr := -1; b_name := []; b_uuid := bc_claim c |}.
 
 (* ---------------------------------------------------------------- the server gate *)
 Definition scHandshake : N := 1.     (* handshake failed *)
@@ -355,7 +360,6 @@ Inductive sphase :=
 Record scfg := {
   sc_threshold : Z;                               (* MojangLoginHandler.Threshold *)
   sc_checker : option (list N -> list N -> Z -> option (list N));  (* LoginChecker: Some reason = refused *)
-  sc_json_reason : bool;                          (* the disconnect reason is written as chat.JsonMessage *)
   sc_cfg : cfgmode;
   sc_registry_blob : list N;                      (* NBT image of Configurations.Registries *)
   sc_status : Z -> option (list N) }.             (* listResp(clientProtocol): JSON or marshal error *)
@@ -364,17 +368,11 @@ Record scfg := {
    (true) or the chat.Message itself, i.e. NBT (false, the tree before ef3d9ec) *)
 Definition gate_json_reason : bool := true.
 
-Record srv := { s_ph : sphase; s_thr : Z; s_proto : Z; s_name : list N; s_uuid : list N;
-                s_seen : list (Z * Z * Z) }.
+Record srv := { s_ph : sphase; s_thr : Z; s_proto : Z; s_name : list N; s_uuid : list N }.
 Definition s_set (s : srv) (ph : sphase) : srv :=
-  {| s_ph := ph; s_thr := s_thr s; s_proto := s_proto s; s_name := s_name s; s_uuid := s_uuid s;
-     s_seen := s_seen s |}.
-Definition s_note (s : srv) (f : frame) : srv :=
-  {| s_ph := s_ph s; s_thr := s_thr s; s_proto := s_proto s; s_name := s_name s; s_uuid := s_uuid s;
-     s_seen := s_seen s ++ [(f_id f, f_thr f, s_thr s)] |}.
+  {| s_ph := ph; s_thr := s_thr s; s_proto := s_proto s; s_name := s_name s; s_uuid := s_uuid s |}.
 Definition s_recv (s : srv) (h : srv -> frame -> srv) (f : frame) : srv :=
-  let s1 := s_note s f in
-  if f_thr f =? s_thr s then h s1 f else s_set s1 (SClosed scDecode).
+  if f_thr f =? s_thr s then h s f else s_set s (SClosed scDecode).
 
 Section Server.
 Variable offline_uuid : list N -> list N.        (* offline.NameToUUID: MD5 with version bits, uninterpreted *)
@@ -393,7 +391,7 @@ Definition after_compress (c : scfg) (s : srv) : sphase :=
       match chk (s_name s) (s_uuid s) (s_proto s) with
       | None => profile
       | Some reason =>
-          SSend cbLoginDisconnect [if sc_json_reason c then FJson reason else FNbt reason] (SClosed scRefused)
+          SSend cbLoginDisconnect [if gate_json_reason then FJson reason else FNbt reason] (SClosed scRefused)
       end
   end.
 
@@ -403,7 +401,7 @@ Definition srv_handshake (c : scfg) (s : srv) (f : frame) : srv :=
       match scan_varint pv, scan_varint iv with
       | Some p, Some i =>
           let s' := {| s_ph := s_ph s; s_thr := s_thr s; s_proto := p; s_name := s_name s;
-                       s_uuid := s_uuid s; s_seen := s_seen s |} in
+                       s_uuid := s_uuid s |} in
           if i =? 1 then s_set s' (SStatus 2)
           else if i =? 2 then s_set s' SLoginStart
           else s_set s' (SClosed scIntention)
@@ -417,7 +415,7 @@ Definition srv_login_start (c : scfg) (s : srv) (f : frame) : srv :=
   match f_fields f with
   | FString n :: FUUID _ :: _ =>
       let s' := {| s_ph := s_ph s; s_thr := s_thr s; s_proto := s_proto s; s_name := n;
-                   s_uuid := offline_uuid n; s_seen := s_seen s |} in
+                   s_uuid := offline_uuid n |} in
       if 0 <=? sc_threshold c then s_set s' SCompress else s_set s' (after_compress c s')
   | _ => s_set s (SClosed scWrongPacket)
   end.
@@ -438,7 +436,7 @@ Definition srv_act (c : scfg) (s : srv) : action srv :=
   | SCompress =>
       ASend {| f_thr := s_thr s; f_id := cbLoginCompression; f_fields := [FVarInt (sc_threshold c)] |}
             {| s_ph := after_compress c s; s_thr := sc_threshold c; s_proto := s_proto s;
-               s_name := s_name s; s_uuid := s_uuid s; s_seen := s_seen s |}
+               s_name := s_name s; s_uuid := s_uuid s |}
   | SSend id fs next => ASend {| f_thr := s_thr s; f_id := id; f_fields := fs |} (s_set s next)
   | SAwaitAck =>
       ARecv (s_recv s (fun s f =>
@@ -446,7 +444,7 @@ Definition srv_act (c : scfg) (s : srv) : action srv :=
   | SConfAck =>
       (* the handler's error, if any, is dropped by AcceptConn (`s.AcceptConfig(conn)` without
          assignment): AcceptPlayer is called whatever was read *)
-      ARecv (fun f => s_set (s_note s f) SJoined)
+      ARecv (fun f => s_set s SJoined)
   | SStatus O => AHalt
   | SStatus (S more) => ARecv (s_recv s (srv_status c more))
   | SJoined => AHalt
@@ -454,18 +452,19 @@ Definition srv_act (c : scfg) (s : srv) : action srv :=
   end.
 
 Definition srv_init : srv :=
-  {| s_ph := SHandshake; s_thr := -1; s_proto := 0; s_name := []; s_uuid := []; s_seen := [] |}.
+  {| s_ph := SHandshake; s_thr := -1; s_proto := 0; s_name := []; s_uuid := [] |}.
 
 Definition gsys := sys bot srv.
 Definition sys_init (b : bot) : gsys :=
-  {| x_b := b; x_s := srv_init; x_c2s := []; x_s2c := []; x_c2s_hist := []; x_s2c_hist := [] |}.
+  {| x_b := b; x_s := srv_init; x_c2s := []; x_s2c := []; x_c2s_hist := []; x_s2c_hist := [];
+     x_bseen := []; x_sseen := [] |}.
 Definition join_init (bc : bcfg) : gsys := sys_init (bot_join_init bc).
 Definition ping_init (bc : bcfg) : gsys := sys_init (bot_ping_init bc).
-Definition gstep_b (bc : bcfg) (sc : scfg) := step_b bot srv (bot_act bc).
-Definition gstep_s (bc : bcfg) (sc : scfg) := step_s bot srv (srv_act sc).
-Definition grun_sched (bc : bcfg) (sc : scfg) := run_sched bot srv (bot_act bc) (srv_act sc).
-Definition grun_greedy (bc : bcfg) (sc : scfg) := run_greedy bot srv (bot_act bc) (srv_act sc).
-Definition gterminalb (bc : bcfg) (sc : scfg) := terminalb bot srv (bot_act bc) (srv_act sc).
+Definition gstep_b (bc : bcfg) (sc : scfg) := step_b bot srv (bot_act bc) b_thr.
+Definition gstep_s (bc : bcfg) (sc : scfg) := step_s bot srv (srv_act sc) s_thr.
+Definition grun_sched (bc : bcfg) (sc : scfg) := run_sched bot srv (bot_act bc) (srv_act sc) b_thr s_thr.
+Definition grun_greedy (bc : bcfg) (sc : scfg) := run_greedy bot srv (bot_act bc) (srv_act sc) b_thr s_thr.
+Definition gterminalb (bc : bcfg) (sc : scfg) := terminalb bot srv (bot_act bc) (srv_act sc) b_thr s_thr.
 End Server.
 
 (* every frame either side has read so far was decoded under the threshold it was encoded with *)
